@@ -234,7 +234,7 @@ def reference(w):
         continue
       rm.append(digest(np.asarray(e.components_)))
       rt.append(digest(float(e.threshold_)) if w.has_thr else 'none')
-      rme.append(digest(w.probe_metric(e.get_metric(), d - 1)))
+      rme.append(digest(w.probe_metric(e.get_metric(), w.dims.index(w.dims[d - 1]))))   # probes depend on the dimension only
       rma.append(digest(e.get_mahalanobis_matrix()))
       variants = [lambda est: None]
       if w.has_thr:
